@@ -780,9 +780,11 @@ EighEv(ev, pre) ==
                   \cup ValuesStructure(a, w, "C11.eigh", TRUE)
                   \cup F(\A i \in 1..Len(a.blocks) : HasSector(v, a.blocks[i].s) => BlockOf(v, a.blocks[i].s).shape = a.blocks[i].shape,
                          "C11.eigh.vector_shapes")
-                  \cup (IF AllExact(w) /\ ~IsFermi(a) /\ IsRealE(D) /\ \A e \in D : e.k[1] = e.k[2]
-                        THEN \* diagonal family: the eigenvalues of the stored sectors are the diagonal entries
-                             F(LET diag == {<<e.k, e.v[1]>> : e \in D}
+                  \cup (IF AllExact(w) /\ IsRealE(D) /\ \A e \in D : e.k[1] = e.k[2]
+                        THEN \* diagonal family: the eigenvalues of the stored sectors are the diagonal entries; fermionic: with the
+                             \* sign the reconstruction v diag(w) v+ = a forces on odd charges when the second leg is a ket
+                             F(LET sg(e) == IF IsFermi(a) /\ ~a.ix[2].dual /\ Parity(a.sym, e.k[2][1]) = 1 THEN -1 ELSE 1
+                                   diag == {<<e.k, e.v[1] * sg(e)>> : e \in Elem(a)}     \* labelled coordinates <<charge, position>>
                                    zeros == SumSeqInt([i \in 1..Len(a.blocks) |-> a.blocks[i].shape[1]]) - Cardinality(D)
                                IN /\ NZVecBag(w) = {<<m, Cardinality({d \in diag : d[2] = m})>> : m \in {d[2] : d \in diag}}
                                   /\ Cardinality({e \in VecElem(w) : e.v = VZero}) = zeros,
@@ -1189,6 +1191,10 @@ OpFails(ev, pre) ==
   IF ev.op \in {"group_pairs", "group_assoc", "sectors"} THEN TableFails(ev)
   ELSE IF ev.op = "reshape_args" THEN ReshapeArgsEv(ev)
   ELSE IF ev.op = "threads_run" THEN ThreadsEv(ev)
+  ELSE IF ev.op = "stress_run"
+  THEN \* free-running threads on shared arrays: what the harness observed (every result compared with the sequential one)
+       F(ev.args.mismatches = 0, "C15.threads.stress_equals_sequential")
+       \cup F(ev.args.errors = <<>> /\ ~ev.args.hung, "C15.threads.stress_no_error")
   ELSE IF ev.op = "mode_ctx" THEN ModeCtxEv(ev)
   ELSE IF ev.op \in {"set_cache", "set_default_mode", "make_state"} THEN {}
   ELSE IF ev.op = "local_elements" THEN LocalElementsEv(ev)
